@@ -1017,7 +1017,7 @@ func c08r5(p *Program, r *Report) {
 				return true
 			}
 			n++
-			r.Check(fi.Name == want, c, fi.Name+" calls "+name, "the only allowed caller", name+" may only be called from "+want)
+			r.Check(p.callerWithin(fi, []string{want}, 0), c, fi.Name+" calls "+name, "the only allowed caller (or a private helper only it calls)", name+" may only be called from "+want)
 			return true
 		})
 	})
